@@ -547,6 +547,21 @@ theorem mxml_key_signatures_reported (d : Doc) (x : KSig) (hne : ∃ m ∈ d.mea
     simp at this
   · exact hmem x
 
+/-- … each ONCE: no key signature (key, mode, time) is reported twice, however many parts and measures declare it
+— also when other signatures were recorded in between (C major @0, E minor @t declared by every part of a
+score is two signatures) -/
+theorem mxml_key_signatures_once (d : Doc) : (getKeySignatures d).Nodup := by
+  unfold getKeySignatures
+  have h := nodup_dedup (d.measures.filterMap (·.ks)) [] List.nodup_nil
+  split
+  · simp
+  · exact h
+
+/-- two parts that both declare C major @0 and E minor @4 (in separate measures): two signatures -/
+example : getKeySignatures ⟨[[{ ks := some ⟨0, false, 0⟩ }, {}, { ks := some ⟨4, true, 4⟩ }, {}],
+                             [{ ks := some ⟨0, false, 0⟩ }, {}, { ks := some ⟨4, true, 4⟩ }, {}]], 8, PState.init⟩ =
+    [⟨0, false, 0⟩, ⟨4, true, 4⟩] := by decide +kernel
+
 /-- 6/8 with divisions 2: a beat (eighth) is one division, six of them fill the measure -/
 example : fixTimeSignature { PState.init with divisions := 2, ts := some ⟨6, 8, 0⟩ } { duration := 6 } 0 =
     .ok ({ PState.init with divisions := 2, ts := some ⟨6, 8, 0⟩ }, { duration := 6 }) :=
